@@ -149,6 +149,27 @@ class RealGdb(Stage):
         return res
 
 
+class Scenarios(Stage):
+    """short scripted situations the free-running machine reaches too rarely to be relied on (bare-id, twins, star-after-exclusion, declined-quit), each with drawn details, run
+    through the same executor and judged by the same model"""
+    name = 'scenarios'
+    KINDS = ['bare-id', 'twins', 'star-after-exclusion', 'declined-quit']
+
+    def examples(self, tier):
+        return 80 if tier == 'quick' else 14 * 400
+
+    def gen(self, d, tier):
+        from .. import runner
+        return pm.scenario_case(d, d.choice(self.KINDS), WEIGHTS)
+
+    def execute(self, case):
+        res = pm.replay(case, True, False)
+        res.nontrivial = True
+        res.label('scenario:' + case.get('scenario', '?'))
+        res.sample = dict(scenario=case.get('scenario'), ops=[[o[0], o[1], o[2] if o[0] != 'msg' else o[3]['target_iface'] + '.' + o[3]['name']] for o in case['ops'][:14]])
+        return res
+
+
 class C10(Prop):
     id = 'C10'
     rule = ('plugin-machine: Hypothesis rule-based machine on the real Plugin + Controller over a gdb stand-in: rules = a generated message on '
@@ -162,7 +183,7 @@ class C10(Prop):
             'and >= 1 command; distinct by SHA-1 of the op list. A quit may be declined at gdb\'s confirmation (the stand-in raises `Not confirmed.`): the session goes on and halts are judged as before. Bare-id break texts are evaluated by the reference semantics.')
     assumptions = ['fakegdb stand-in for the gdb module; closures are converted from well-formed generated histories',
                    'breakpoint accumulation model shared with C12 (absorbed alternatives unspecified: skipped and counted)']
-    stages = [Machine(), Prompt(), RealGdb()]
+    stages = [Machine(), Scenarios(), Prompt(), RealGdb()]
 
 
 gdbsim.install()
